@@ -675,7 +675,9 @@ def engine_for(pid):
 # ----------------------------------------------------------------------------------- manifest texts
 NOT_APPLICABLE = {}
 
-_T = "Lean 4 proof over a hand-written executable model + differential correspondence model<->code + property oracle on implementation traces"
+_T = ("Lean 4 proof over an executable model whose data layer (SQL statements), websocket layer (onMessage + handlers) and usage summaries "
+      "are proved equal to translations regenerated from the source on every run + differential correspondence model<->code + property "
+      "oracle on implementation traces")
 NOTES = {pid: {"technique": _T, "text": "", "note": ""} for pid in PROPS}
 
 
@@ -687,9 +689,14 @@ def _n(pid, text, note, technique=None):
 
 
 _TIE = ("Trusted: Lean kernel (axioms of every listed theorem checked to be within propext/Classical.choice/Quot.sound; thorough tier re-checks "
-        "the modules with leanchecker), translate.py, the hand-written model (tied to the code by differential execution on generated histories "
-        "every run, not proved), impl.py runner; SQLite/CPython/Twisted/Autobahn modelled, not verified. Environment assumptions are exactly the "
-        "fields of GSys.WFOp (fresh connection ids, monotone time, fresh generated mailbox ids).")
+        "the modules with leanchecker), the translators (translate.py: constants, allocation ranges, schema scripts; translate_sql.py: the 49 "
+        "SQL statements of server.py; translate_ws.py / translate_wsbody.py: onMessage and all handle_* of server_websocket.py; "
+        "translate_summ.py: the two usage-summary functions) with the semantics Lean gives their output (Sql.lean, WsGuards.lean, PyWs.lean, "
+        "PySum.lean) - for those parts the model is PROVED equal to the translation of the current source on every run (Tie/*.lean, "
+        "e.g. onMessage_eq_reach); the rest of the hand-written model (control flow of server.py below the method table, database.py) is tied "
+        "to the code by differential execution on generated histories every run, not proved; impl.py runner; SQLite/CPython/Twisted/Autobahn "
+        "modelled, not verified. Environment assumptions are exactly the fields of GSys.WFOp (fresh connection ids, monotone time, fresh "
+        "generated mailbox ids).")
 _PENDING = "differential correspondence with Lean model + history oracle on implementation traces (theorems in progress)"
 _n("C01", "Theorems for every well-formed history incl. crashes: an accepted add appends exactly one row (side from the bind); every other step leaves a mailbox's messages unchanged or, when the mailbox row is gone, empty; an accepted open replays exactly the stored rows; hence (ghost log reset at deletion) C01_replay_exact'. K-id-coercion: exact for non-integer ids/phases, counterexample theorem for integers. Code side: correspondence + oracle recomputing every replay from the history alone.", _TIE)
 _n("C02", "Theorems: an accepted add emits exactly one unmodified frame per listener, each once, nobody else (C02_fanout_exact, C02_exactly_once, C02_no_other); who enters/leaves the listener set in every kind of step, sweeps and binds never (C02_listeners_*), ghost subscriber characterisation over histories (C02_subscribers'). The registry of AppNamespace/Mailbox objects is modelled separately (Wormhole/Reg.lean) and PROVED to refine the object-free model for every well-formed history (Reg_refines_Sys; counterexample theorem for the pre-repair caching variant); both models are run against the code. Code side: correspondence + oracle recomputing the subscriber set of every add from the history.", _TIE)
